@@ -8,12 +8,13 @@ pub mod oneshot;
 pub mod ringbuf;
 pub mod semaphore;
 pub mod state;
+pub mod tasks;
 pub mod timer;
 
 use crate::common::World;
 
 pub fn all() -> Vec<&'static dyn World> {
-    vec![&mutex::MutexWorld, &semaphore::SemaphoreWorld, &event::EventWorld, &timer::TimerWorld, &oneshot::OneshotWorld, &state::StateWorld, &mpmc::MpmcWorld, &ringbuf::RingBufWorld, &collections::ListWorld, &collections::HeapWorld]
+    vec![&mutex::MutexWorld, &semaphore::SemaphoreWorld, &event::EventWorld, &timer::TimerWorld, &oneshot::OneshotWorld, &state::StateWorld, &mpmc::MpmcWorld, &ringbuf::RingBufWorld, &collections::ListWorld, &collections::HeapWorld, &tasks::TaskMutexWorld, &tasks::TaskSemaphoreWorld, &tasks::TaskEventWorld, &tasks::TaskMpmcWorld]
 }
 
 pub fn by_name(name: &str) -> Option<&'static dyn World> {
